@@ -299,9 +299,9 @@ OBLIGATIONS = [
        functions=[S.SFTPServer.map_path, S.SFTPServer.reverse_map_path],
        bounds='client path of length <= 5 (thorough 6) over {/ . a}; chroot /r'),
     Ob('server_ops', server_ops,
-       sym=dict(n=R(0, 4), i0=R(0, 2), i1=R(0, 2), i2=R(0, 2), i3=R(0, 2), i4=R(0, 2),
+       sym=dict(n=R(0, 3), i0=R(0, 2), i1=R(0, 2), i2=R(0, 2), i3=R(0, 2), i4=R(0, 2),
                 m=R(0, 3), j0=R(0, 2), j1=R(0, 2), j2=R(0, 2)),
-       shards=dict(op=list(range(len(OPS))), i4=[0], i3=[0], m=[2]), pre=['n <= 3'],
+       shards=dict(op=list(range(len(OPS))), i4=[0], i3=[0], m=[2]),
        thorough_shards=dict(op=list(range(len(OPS))), n=[0, 1, 2, 3, 4, 5]),
        timeout=150, thorough_timeout=600,
        functions=[getattr(S.SFTPServer, o) for o in OPS],
